@@ -212,10 +212,11 @@ func (s *ReverseSuffixSetSearcher) FindAt(haystack []byte, at int) *Match {
 		// Use reverse DFA with anti-quadratic guard to find match start
 		matchStart := s.reverseDFA.SearchReverseLimited(revCache, haystack, at, suffixEnd, minStart)
 		if matchStart >= 0 {
-			// The candidate fixes the match START; the END is that of the
-			// leftmost-first match from there (a greedy prefix runs on to a later
-			// suffix: `(?s:.*\.(txt|log))` on ".log.txt" is [0 8], not [0 4]).
-			start, end := s.spanFrom(haystack, matchStart, suffixEnd)
+			// A match exists: return the leftmost one (see spanFrom)
+			start, end, found := s.spanFrom(haystack, at, revCache)
+			if !found {
+				return nil
+			}
 			return NewMatch(start, end, haystack)
 		}
 		if matchStart == lazy.SearchReverseLimitedQuadratic {
@@ -321,8 +322,7 @@ func (s *ReverseSuffixSetSearcher) findIndicesAtImpl(haystack []byte, at int, re
 		// Use reverse DFA with anti-quadratic guard to find match start
 		matchStart := s.reverseDFA.SearchReverseLimited(revCache, haystack, at, suffixEnd, minStart)
 		if matchStart >= 0 {
-			start, end := s.spanFrom(haystack, matchStart, suffixEnd)
-			return start, end, true
+			return s.spanFrom(haystack, at, revCache)
 		}
 		if matchStart == lazy.SearchReverseLimitedQuadratic {
 			// Quadratic behavior detected - fall back to PikeVM
@@ -341,21 +341,24 @@ func (s *ReverseSuffixSetSearcher) findIndicesAtImpl(haystack []byte, at int, re
 	}
 }
 
-// spanFrom returns the leftmost-first match of the full pattern that starts at
-// matchStart, a start confirmed by the reverse scan from a suffix candidate (candEnd
-// is the end of that candidate). Same forward verification as ReverseSuffixSearcher.
-func (s *ReverseSuffixSetSearcher) spanFrom(haystack []byte, matchStart, candEnd int) (start, end int) {
+// spanFrom returns the leftmost-first match that starts at or after 'at', once a
+// suffix candidate has been confirmed (so a match exists). The confirmed start is only
+// the leftmost start of a match ending AT THAT OCCURRENCE; a match that starts earlier
+// may end behind a later occurrence (`[ab]+(1.+2|3)(xyz|uvw)` on "a1 b3xyz 2uvw" is
+// [0 13], not [3 8]), and a greedy prefix runs on to a later suffix
+// (`(?s:.*\.(txt|log))` on ".log.txt" is [0 8]). The forward DFA from 'at' gives the
+// leftmost match's end, the reverse DFA from there its start.
+func (s *ReverseSuffixSetSearcher) spanFrom(haystack []byte, at int, revCache *lazy.DFACache) (start, end int, found bool) {
 	fwdCache := s.fwdCachePool.Get().(*lazy.DFACache)
-	end = s.forwardDFA.SearchAtAnchored(fwdCache, haystack, matchStart)
+	matchEnd := s.forwardDFA.SearchAt(fwdCache, haystack, at)
 	s.fwdCachePool.Put(fwdCache)
-	if end >= 0 {
-		return matchStart, end
+	if matchEnd > at {
+		if st := s.reverseDFA.SearchReverse(revCache, haystack, at, matchEnd); st >= 0 {
+			return st, matchEnd, true
+		}
 	}
-	// DFA gave up — fallback to PikeVM
-	if pStart, pEnd, found := s.pikevm.SearchAt(haystack, matchStart); found && pStart == matchStart {
-		return pStart, pEnd
-	}
-	return matchStart, candEnd
+	// empty match at 'at', or a DFA gave up - PikeVM
+	return s.pikevm.SearchAt(haystack, at)
 }
 
 // IsMatch checks if the pattern matches using suffix set prefilter.
